@@ -130,7 +130,7 @@ func cmdCheck(repo, verifDir, id, tier string) int {
 		return 2
 	}
 	e.tier = tier
-	e.timeoutS = 10
+	e.timeoutS = 30
 	if pack.TimeoutS > 0 {
 		e.timeoutS = pack.TimeoutS
 	}
@@ -448,7 +448,15 @@ func (e *Engine) writeReplay(dir, id string, g *oblGroup, pack *Pack) ReplayResu
 		}
 		res.Reproduced = ok
 	} else {
-		rec["replay_on_real_code"] = "no model: the solvers answered " + g.Bad.Status + " (quantified goal); the obligation is reported as failed because it is discharged on the unchanged tree"
+		note := "no model: the solvers answered " + g.Bad.Status + " (quantified goal); the obligation is reported as failed because it is discharged on the unchanged tree"
+		// a scenario template without model parameters can still be replayed on the real code
+		ok, rnote, test := e.replayOnRealCode(dir, base, g, pack)
+		if test != "" {
+			note += "; scenario replay: " + rnote
+			rec["replay_test_file"] = test
+			res.Reproduced = ok
+		}
+		rec["replay_on_real_code"] = note
 	}
 	rec["reproduced_on_real_code"] = res.Reproduced
 	b, _ := json.MarshalIndent(rec, "", " ")
